@@ -1409,7 +1409,7 @@ Tokenizer_handle_tag_data(Tokenizer *self, TagData *data, Py_UCS4 chunk)
     if (data->context & TAG_NAME) {
         first_time = !(data->context & TAG_NOTE_SPACE);
         if ((is_marker(chunk) && !(Py_UNICODE_ISSPACE(chunk) && !first_time)) ||
-            (Py_UNICODE_ISSPACE(chunk) && first_time)) {
+            (Py_UNICODE_ISSPACE(chunk) && first_time) || chunk == '\\') {
             // Tags must start with text, not spaces
             Tokenizer_fail_route(self);
             return 0;
